@@ -619,6 +619,10 @@ func validateNumberRange(fv float64, nr *numberRange) error {
 		return nil
 	}
 
+	if math.IsNaN(fv) {
+		return errNumberRange
+	}
+
 	if (nr.leftInclude && fv < nr.left) || (!nr.leftInclude && fv <= nr.left) {
 		return errNumberRange
 	}
